@@ -60,6 +60,7 @@ type pipeline struct {
 }
 
 type pipeOpts struct {
+	AltBin  map[string]string
 	Race    bool
 	Execute bool
 	Asserts bool
@@ -86,6 +87,7 @@ func runPipelineOpts(e *core.Env, name string, cases []*pgen.Case, po pipeOpts) 
 		}
 	}
 	m.Asserts = po.Asserts
+	m.AltBin = po.AltBin
 	p := &pipeline{Mod: m}
 	p.Dropped = m.VetInputs()
 	m.Generate(bin)
